@@ -12,9 +12,11 @@ for grp, ents in rf_gatesets.ENTRIES.items():
     for e in ents:
         b = resolve_fn(prog, e)
         out[b.path] = sorted(sorted(s) for s in rf_gatesets.gate_sets(ctx, 'prod-all', b.path))
+        out.setdefault('__questions__', {})[b.path] = sorted([q, sorted(s)] for q, s in rf_gatesets.gate_sets(ctx, 'prod-all', b.path, with_question=True))
 json.dump(out, open(rf_gatesets.TABLE_FILE, 'w'), indent=1)
 for k, v in out.items():
-    print(k.split('::')[-1], len(v))
+    if not k.startswith('__'):
+        print(k.split('::')[-1], len(v))
 eo = {}
 for e in rf_gatesets.ENTRIES['bbs']:
     b = resolve_fn(prog, e)
